@@ -444,6 +444,18 @@ def main():
                     for x in sorted(called - defined):
                         deviate(lang, "lua: %s is called but never defined" % x, pid, fn)
                     stats["lua fields used"] += len(used)
+            # (1d) Go: an imported package that the file never refers to does not compile (checked against `go build`
+            # by harness/goexec.py: the static rule agrees with the compiler on every file)
+            if lang == "go":
+                for fn, txt in files.items():
+                    m = re.search(r"^import \((.*?)^\s*\)", txt, re.S | re.M)
+                    if not m:
+                        continue
+                    rest = txt[m.end():]
+                    for imp in re.findall(r'^\s*(?:(\w+)\s+)?"([^"]+)"', m.group(1), re.M):
+                        name = imp[0] or imp[1].rsplit("/", 1)[-1]
+                        if name and not re.search(r"\b%s\." % re.escape(name), rest):
+                            deviate(lang, "go: package %s is imported and not used" % imp[1], pid, fn)
             # (3) syntax
             if not args.no_toolchains:
                 root = os.path.join(scratch, lang)
